@@ -76,6 +76,7 @@ func (e *Engine) hofAssume(st *State, fr *Frame, ls *LoopSpec, bind map[string]*
 		return
 	}
 	env := e.hofEnv(st, fr, bind, pre)
+	env.assuming = true
 	for _, inv := range ls.Invariants {
 		st.assume(e.evalBool(env, inv))
 	}
